@@ -30,7 +30,8 @@ func (t *TransactionCancelTimer) Start() error {
 	if t.done != nil {
 		return fmt.Errorf("TransactionCancelTimer already started")
 	}
-	t.done = make(chan struct{})
+	done := make(chan struct{})
+	t.done = done
 
 	go func() {
 		timer := time.NewTimer(t.delay)
@@ -46,11 +47,10 @@ func (t *TransactionCancelTimer) Start() error {
 				t.fnc()
 			}
 			verifhook.Point("timer.exit")
-		case <-t.done:
+		case <-done:
 			// Stop the timer
 			log.Infof("TransactionCancelTimer stopped")
 			verifhook.Point("timer.stopped")
-			t.done = nil
 			verifhook.Point("timer.exit")
 		}
 	}()
@@ -66,4 +66,6 @@ func (t *TransactionCancelTimer) Stop() {
 		return
 	}
 	close(t.done)
+	// the timer is stopped, a further Stop() must not close the channel again
+	t.done = nil
 }
